@@ -232,4 +232,84 @@ theorem C03_exact_filter (R : Nat) (g : Graph) (L : List Id) (hWF : WF R g L) (d
       have hl : ids.length = limit := by simp [ids, hfull, hcap]
       rw [List.take_left' hl, List.take_of_length_le (by omega)]
 
+
+/-- C03 (c), search half: on a well-formed graph in which every node is reachable from the entry node and
+which fits into the search window (`|L| < searchSize`, i.e. at most `searchSize − 1` vectors beside the entry
+node), the unfiltered search is exact: the answer is the first `limit` entries of a distance-sorted
+enumeration of ALL live points carrying the field. -/
+theorem C03_exact_connected (R : Nat) (g : Graph) (L : List Id) (hWF : WF R g L) (hconn : ∀ i ∈ g.keys, Reach g i)
+    (dq : Id → D) (hyb : D → H) (limit searchSize : Nat) (hk : limit ≤ searchSize) (hroom : L.length < searchSize) :
+    ∃ (res : List (Hit D H)) (E : List Id), search g.view dq hyb limit searchSize none (g.vecs.length + 1) = .ok res ∧
+      E.Perm L ∧ E.Pairwise (fun a b => dq a ≤ dq b) ∧ res.map (·.id) = E.take limit := by
+  obtain ⟨he, hvecs, hcons, hlive⟩ := wf_view R g L hWF
+  obtain ⟨⟨hkn, hvn, hkv, hclean⟩, hln, hle, hkl, _⟩ := (C10_wf_meaning_aux R g L).mp hWF
+  have hvlen : g.vecs.length ≤ searchSize := by
+    have : g.vecs.Perm (entry :: L) := by
+      apply (List.perm_ext_iff_of_nodup hvn (List.nodup_cons.mpr ⟨hle, hln⟩)).mpr
+      intro i; rw [← hkv i, hkl i]; simp
+    have := this.length_eq
+    simp at this; omega
+  obtain ⟨st, hloop, hI, hnone, hgs⟩ := greedySearch_ok g.view dq limit searchSize none g.vecs hk he hvecs hcons
+  have hN0 : NInv g.view dq g.vecs (initState g.view dq limit searchSize none) := by
+    have hr0 : Room dq g.view g.vecs (DistSet.new searchSize : DistSet D) :=
+      ⟨new_inv dq _ _, by simp [DistSet.new], hvlen⟩
+    refine ⟨addWithLimit1_roomInv dq g.view g.vecs hvecs _ entry he hr0, ?_, ?_⟩
+    · intro e he' hv
+      rcases addWithLimit1_items dq _ entry e he' with h | ⟨h, _⟩
+      · simp [DistSet.new] at h
+      · rw [h] at hv; simp at hv
+    · exact (addWithLimit1_seen dq _ entry entry).mpr (Or.inl rfl)
+  have hN : NInv g.view dq g.vecs st := by
+    have := loop_induct g.view dq none searchSize (fun st => NInv g.view dq g.vecs st)
+      (fun st e es h1 h2 h3 => NInv_step g.view dq g.vecs hvecs none searchSize st e es h1 h2 h3) _ _ st hloop hN0
+    exact this.1
+  -- at exit everything kept has been visited
+  have hids_vec : ∀ i ∈ st.search.items.map (·.id), i ∈ g.vecs := by
+    intro i hi
+    obtain ⟨e, he', rfl⟩ := List.mem_map.mp hi
+    exact hvecs _ (hI.s.ok e he').2
+  have hlen : st.search.items.length ≤ searchSize := by
+    have := List.Nodup.length_le_of_subset hI.s.nodup hids_vec
+    simp at this; omega
+  have hallv := nextUnvisited_none searchSize _ hnone hlen
+  -- hence every reachable node is kept
+  have hreach : ∀ i, Reach g i → i ∈ st.search.items.map (·.id) := by
+    intro i hr
+    induction hr with
+    | entry => exact hN.room.keep _ hN.entrySeen
+    | step hr hes ht ih =>
+      rename_i i t es
+      obtain ⟨e, he', hid⟩ := List.mem_map.mp ih
+      have htk : t ∈ g.keys := ((hclean _ (edges_some hes)).1 t ht).2
+      have htv : g.view.hasVec t = true := by
+        have := (hkv t).mp htk
+        simpa [Graph.view, Graph.hasVec] using this
+      have hes' : g.view.edges e.id = some es := by rw [hid]; exact hes
+      exact hN.room.keep t (hN.closed e he' (hallv e he') es hes' t ht htv)
+  have hfilt_mem : ∀ i, i ∈ (st.search.items.filter (fun e => e.id != entry)).map (·.id) ↔ i ∈ L := by
+    intro i
+    simp only [List.mem_map, List.mem_filter, bne_iff_ne, ne_eq]
+    constructor
+    · rintro ⟨e, ⟨he', hne⟩, rfl⟩
+      rcases hlive e.id (hI.s.ok e he').2 with h | h
+      · exact absurd h hne
+      · exact h
+    · intro hi
+      have hik : i ∈ g.keys := (hkl i).mpr (Or.inr hi)
+      obtain ⟨e, he', rfl⟩ := List.mem_map.mp (hreach i (hconn i hik))
+      exact ⟨e, ⟨he', fun h => hle (h ▸ hi)⟩, rfl⟩
+  unfold search
+  rw [hgs]
+  refine ⟨_, (st.search.items.filter (fun e => e.id != entry)).map (·.id), rfl, ?_, ?_, ?_⟩
+  · apply (List.perm_ext_iff_of_nodup ?_ hln).mpr hfilt_mem
+    exact hI.s.nodup.sublist (List.filter_sublist.map _)
+  · rw [List.pairwise_map]
+    have hs : SortedD st.search.items := hI.ssorted rfl
+    refine List.Pairwise.imp_of_mem ?_ (List.Pairwise.sublist List.filter_sublist hs)
+    intro a b ha hb hab
+    rw [← (hI.s.ok a (List.mem_filter.mp ha).1).1, ← (hI.s.ok b (List.mem_filter.mp hb).1).1]; exact hab
+  · show List.map _ (List.map _ ((st.search.items.filter _).take limit)) = _
+    rw [List.map_map, ← List.map_take]
+    rfl
+
 end Sema.C03
